@@ -197,7 +197,7 @@ package mkvs
 //@ func treeIterator.doNext
 //@   props C03
 //@   requires it != nil
-//@   assume-pre node\.Key\.(AppendBit|GetBit)$
+//@   assume-pre (node\.Key\.(AppendBit|GetBit)|mkvs\.cache\.derefNodePtr)$
 //@   ensures-local err == nil && defined(newPath) && state == visitBefore && it.key == nil && (8 * len(old(key)) <= int(newBitDepth) || (newBitDepth > 0 && 8 * len(old(key)) >= int(newBitDepth) && uf("keyCompare", old(key), newPath) < 0)) ==> GDoNext >= old(GDoNext) + 3
 //@   ensures-local err == nil && defined(newPath) && state == visitAt && it.key == nil ==> GDoNext >= old(GDoNext) + 1
 //@   ensures-local err == nil && defined(newPath) && state == visitAtLeft && it.key == nil ==> GDoNext >= old(GDoNext) + 1
